@@ -5,6 +5,7 @@ and refuses - every write-open / mkdir / rename / symlink outside the destinatio
 (M3) an archive with an escaping member (judged by an independent path resolver) must raise.
 """
 import itertools
+import json
 import os
 import random
 import shutil
@@ -156,6 +157,10 @@ def one_archive(R, sandbox, members, dstform, via, idx):
     zpath = os.path.join(S, "outside", "in.zip")
     realmembers = []
     with zipfile.ZipFile(zpath, "w") as zf:
+        if via.startswith("make_wiki"):
+            # the wiki.make_wiki() entry point looks at nfo.json first
+            zf.writestr("nfo.json", json.dumps({"format": "multi-nuwiki" if via.endswith("multi") else "nuwiki"}))
+            zf.writestr("metabook.json", "{}")
         for m in members:
             name = m.replace("$S", S)
             zi = zipfile.ZipInfo(name)
@@ -175,6 +180,14 @@ def one_archive(R, sandbox, members, dstform, via, idx):
         zf = zipfile.ZipFile(zpath)
         if via == "extractall":
             nuwiki.extractall(zf, arg)
+        elif via.startswith("make_wiki"):
+            from mwlib.core import wiki
+            orig = nuwiki.tempfile.mkdtemp
+            nuwiki.tempfile.mkdtemp = lambda *a, **k: dst     # (wiki.tempfile is the same module object)
+            try:
+                wiki.make_wiki(zpath)
+            finally:
+                nuwiki.tempfile.mkdtemp = orig
         else:
             # Adapt extracts into tempfile.mkdtemp(): make that the monitored destination
             orig = nuwiki.tempfile.mkdtemp
@@ -206,6 +219,20 @@ def one_archive(R, sandbox, members, dstform, via, idx):
         R.violation("audit:write-outside-dst", "write attempted outside the destination: %r" % (_state["outside"][:4],), case)
     if must_reject:
         R.count("escaping_archives")
+        # rejected means: not extracted under any name - also not under a "sanitised" one inside the destination
+        esc = {b"payload:" + m.encode("utf-8", "replace") for m in realmembers if ref_escapes(absdst, m) and not m.endswith("/")}
+        landed = []
+        for d, _, files in os.walk(dst):
+            for f in files:
+                try:
+                    with open(os.path.join(d, f), "rb") as fh:
+                        if fh.read(4096) in esc:
+                            landed.append(os.path.relpath(os.path.join(d, f), dst))
+                except OSError:
+                    pass
+        if landed:
+            R.violation("escaping-member-extracted-under-another-name",
+                        "an escaping member was not rejected but written inside the destination as %r" % (landed[:3],), case)
         if raised is None:
             R.violation("escape-not-rejected", "archive with an escaping member was extracted without error", case)
         else:
@@ -258,7 +285,7 @@ def run_shard(desc, R):
                 # a file and a directory of the same name make extraction fail for reasons unrelated to C15
                 idx += 1
                 one_archive(R, sandbox, members, rnd.choice(forms),
-                            "adapt" if rnd.random() < 0.25 else "extractall", idx)
+                            rnd.choice(("adapt", "make_wiki", "make_wiki_multi", "extractall", "extractall", "extractall")), idx)
     finally:
         shutil.rmtree(sandbox, ignore_errors=True)
 
